@@ -89,27 +89,31 @@ def build_root_evaluator(function: str, arguments: Union[Dict, Tuple]) -> Callab
     else:
         new_function = function
 
-    group_of_nodes = []
-    for arg_a, arg_b in arguments:
-        if function.endswith("IfExists"):
-            node = build_root_evaluator(new_function, (arg_a, arg_b))
-            group_of_nodes.append(lambda kwargs: node(kwargs) if kwargs.get(arg_a) is not None else True)
-        elif function.startswith("ForAllValues"):
-            nodes = [build_root_evaluator(new_function, (arg_a, item)) for item in convert_to_list(arg_b)]
-            all_nodes = lambda kwargs: any(node(kwargs) for node in nodes)  # noqa: E731
-            group_of_nodes.append(
-                lambda kwargs: all(all_nodes({**kwargs, arg_a: item}) for item in convert_to_list(kwargs[arg_a]))
-            )
-        elif function.startswith("ForAnyValue") or isinstance(arg_b, list):
-            nodes = [build_root_evaluator(new_function, (arg_a, item)) for item in convert_to_list(arg_b)]
-            all_nodes = lambda kwargs: any(node(kwargs) for node in nodes)  # noqa: E731
-            group_of_nodes.append(
-                lambda kwargs: any(all_nodes({**kwargs, arg_a: item}) for item in convert_to_list(kwargs[arg_a]))
-            )
-        else:
-            group_of_nodes.append(build_evaluator(new_function, arg_a, arg_b))
+    group_of_nodes = [_build_key_evaluator(function, new_function, arg_a, arg_b) for arg_a, arg_b in arguments]
 
     return lambda kwargs: all(group(kwargs) for group in group_of_nodes)
+
+
+def _build_key_evaluator(function: str, new_function: str, arg_a: Any, arg_b: Any) -> Callable:
+    # One evaluator per condition key. Built in its own scope so that every evaluator keeps the key and the
+    # nodes it was built for (closures created inside a loop would all see the values of the last iteration).
+    if function.endswith("IfExists"):
+        node = build_root_evaluator(new_function, (arg_a, arg_b))
+        return lambda kwargs: node(kwargs) if kwargs.get(arg_a) is not None else True
+
+    for_all_values = function.startswith("ForAllValues")
+    if for_all_values or function.startswith("ForAnyValue") or isinstance(arg_b, list):
+        nodes = [build_root_evaluator(new_function, (arg_a, item)) for item in convert_to_list(arg_b)]
+        combine_context_values = all if for_all_values else any
+
+        def evaluate(kwargs):
+            return combine_context_values(
+                any(node({**kwargs, arg_a: item}) for node in nodes) for item in convert_to_list(kwargs[arg_a])
+            )
+
+        return evaluate
+
+    return build_evaluator(new_function, arg_a, arg_b)
 
 
 class StatementCondition(CustomModel):
